@@ -301,7 +301,10 @@ func runC13(col *Collector, tier string, seed int64) {
 	// hooks
 	for _, kind := range []string{"sleep", "loop"} {
 		add(timedSpec{T: Ts[rng.Intn(len(Ts))], before: []timedCmd{{kind, 0}}, cmds: []timedCmd{q}, after: []timedCmd{q}}, "before-hook")
-		add(timedSpec{T: Ts[rng.Intn(len(Ts))], cmds: []timedCmd{q}, after: []timedCmd{{kind, 0}, q}, allow: rng.Intn(2) == 0}, "after-hook")
+		add(timedSpec{T: Ts[rng.Intn(len(Ts))], before: []timedCmd{{kind, 0}}, cmds: []timedCmd{q}, after: []timedCmd{q}, allow: true}, "before-hook")
+		add(timedSpec{T: Ts[rng.Intn(len(Ts))], before: []timedCmd{q, {kind, 0}}, cmds: []timedCmd{q, q}, allow: true}, "before-hook")
+		add(timedSpec{T: Ts[rng.Intn(len(Ts))], cmds: []timedCmd{q}, after: []timedCmd{{kind, 0}, q}, allow: false}, "after-hook")
+		add(timedSpec{T: Ts[rng.Intn(len(Ts))], cmds: []timedCmd{q}, after: []timedCmd{{kind, 0}, q}, allow: true}, "after-hook")
 	}
 	// interactive tasks are bounded like any other
 	for _, kind := range []string{"sleep", "loop"} {
